@@ -9,6 +9,22 @@ E3 = "E3 choice-tape explorer (vmc/engines/choice.py)"
 
 # id: (engine, technique, level text, level note, design ref)
 CHECKS = {
+ "C11": (E1, "exhaustive enumeration of words x complexity type x alphabet x window x step x word size (inputs x configurations); differential locality oracle plus independent entropy reference",
+         "Every {L,K,F} word to length 5/7 and {A,S,T,D,E} word to length 4/6 under every (type, alphabet, window 1..N+1, step 1..N, word size 1..6) combination: shape, position row, range, locality against the one-window profile of a fresh object, WF against an independent Shannon entropy on the independently reduced window; all (N,w,s) triples to N=24/40 for shape/positions; unknown types and w>N rejected.",
+         "LC and LZW values are only constrained by range and locality (the statement gives no formula for them).",
+         "DESIGN.md section 4 C11"),
+ "C12": (E1, "exhaustive enumeration of 12 sizes x 20 residues, all sizes -1..26, word pairs for the homomorphism laws, and every single fault of user alphabets",
+         "Exhaustive over (size, residue) against the documented partition table; exact acceptance set of sizes; concatenation/idempotence/length laws on 8 400 (quick) / 168 000 (thorough) word pairs x 12 sizes; four valid user alphabets with all 140 single faults each and six non-dict arguments.",
+         "Partition table pinned from the docstring; extra keys in a user alphabet are unspecified.",
+         "DESIGN.md section 4 C12"),
+ "C13": (E1, "exhaustive enumeration of all strings over a 17-symbol alphabet to length 4/5 and of every code point inserted at every position of three hosts; oracle transcribed from the statement",
+         "All 88 741 (quick) / 1.5 M (thorough) strings over an alphabet with one representative per behaviour class (valid upper/lower residues, five kinds of whitespace, invalid letters, digits, punctuation, NUL, case-folding specials), every code point up to U+024F (quick) / the whole BMP (thorough) at every position of three hosts, and 13 non-strings: accept iff the normal form is a residue word, then sequence/length/len and a 32-entry API vector equal those of the normal form.",
+         "str subclasses not judged.",
+         "DESIGN.md section 4 C13"),
+ "C14": (E1, "exhaustive enumeration of all file texts over 8/9 symbols to length 6/8 through an in-memory open(), all structured layouts and their single-character corruptions; three-verdict reference parser",
+         "All 300 k (quick) / 48 M (thorough) short file texts, 7 776 structured layouts per sequence and ~100 corruptions at every position of sampled-by-index layouts, plus real temp files: parser result against the reference parser's must-accept/must-reject verdict (dont-care where the statement is silent), and objects built from accepted files against objects built from the string.",
+         "open() is shadowed in localcider.backend.seqfileparser for speed (ten cases go through real files); dont-care list in the evidence assumptions.",
+         "DESIGN.md section 4 C14"),
  "C05": (E1, "bounded-exhaustive enumeration of charge patterns with their full single-site substitution orbits, reversal and inversion; metamorphic oracle between two real evaluations",
          "Every pattern to length 6 (quick) / 8 (thorough) with every single-site class-preserving substitution, 16 respellings, reversal and inversion, and every {PEDKR, other} word to length 8/11 for Omega; kappa, delta, delta-max, SCD, Omega of each variant are compared with the base sequence. No symmetry reduction is applied because the symmetry is the property.",
          "Relations only - values are judged by C01-C03, C06, C07.",
